@@ -76,15 +76,30 @@ def check(F, rep):
         ok = src == CAB + "::copy_from_slice"
         rep.ob("ctor_sites", ok, site(f, b), "CustomAddrBytes::%s constructed in %s" % (rv["variant"], src), skey(F, f, "cab-ctor-" + rv["variant"]))
         if ok and rv["variant"] == "Inline":
-            guards = []
-            for cb, s, ts in cmp_tests(f, ops=("Le", "Lt")):
-                c = [int(m.group(1)) for o in (s["rv"]["b"],) if o["k"] == "const" for m in [_re.match(r"^(?:const )?(\d+)_", str(o.get("v")))] if m]
-                if c and ((s["rv"]["op"] == "Le" and c[0] <= (n or -1)) or (s["rv"]["op"] == "Lt" and c[0] <= (n or -1) + 1)):
-                    a = op_base(s["rv"]["a"])
-                    if a is not None and (defuse(f).derives_from_arg(a, 1)):
-                        if requires(f, b, ts):
-                            guards.append(c[0])
-            rep.ob("ctor_invariant", bool(guards), site(f, b), "Inline is built only under `data.len() <= %s` (bound found: %s, buffer: %s): as_bytes' data[..size] cannot go out of range" % (n, guards, n), CAB + "|inline-len-guard")
+            # bound proof on the *untruncated* length, whatever the idiom: for every length
+            # above the buffer size (also those whose low byte is small) Inline is unreachable
+            def is_full_len(o, f=f):
+                l = op_base(o)
+                for _ in range(8):
+                    if l is None or str(f.locals[l]) != "usize":
+                        return False
+                    calls = [(cb, ct) for cb, ct in f.calls() if ct["dest"] == {"l": l}]
+                    defs = [st["rv"] for cb, ci, st in f.stmts() if st["k"] == "a" and st["lhs"] == {"l": l}]
+                    if len(calls) == 1 and not defs:
+                        ct = calls[0][1]
+                        if not re.search(r"(^|::)len$", callee_names(ct)[0]):
+                            return False
+                        r = copy_sources(f, op_base(ct["args"][0]))
+                        return bool(r) and all(y[0] == "arg" and y[1] == 1 and y[2] == () for y in r)
+                    if len(defs) == 1 and not calls and defs[0]["k"] == "use" and defs[0]["o"]["k"] in ("copy", "move") and not defs[0]["o"]["p"].get("p"):
+                        l = defs[0]["o"]["p"]["l"]      # plain copy only: a cast would truncate
+                        continue
+                    return False
+                return False
+            nn = n or 0
+            okb, ntests = unreachable_when(F, f, b, is_full_len, (nn + 1, nn + 2, 255, 256, 256 + nn, 65536, 65536 + 1))
+            guards = [ntests] if okb else []
+            rep.ob("ctor_invariant", bool(guards), site(f, b), "Inline is built only when the full (usize) length is <= %s - evaluated for lengths %s+1, %s+2, 255, 256, 256+%s, 65536..: a length test on a truncated copy (`len as u8`) does not count (tests on the full length: %s): as_bytes' data[..size] cannot go out of range and long payloads are never cut" % (n, n, n, n, guards), CAB + "|inline-len-guard")
             sz = copy_sources(f, op_base(rv["ops"][rv["fields"].index("size")]))
             rep.ob("ctor_invariant", defuse(f).derives_from_arg(op_base(rv["ops"][rv["fields"].index("size")]), 1), site(f, b), "stored size derives from data.len()", CAB + "|size-from-len")
     for fld in ("size", "data"):
